@@ -111,6 +111,57 @@ impl Session {
         }
     }
 
+    /// the directory on disk that backs the root of a `phys` / `alt(P, phys)` configuration
+    pub fn backing_dir(&self) -> Option<std::path::PathBuf> {
+        use crate::cfg::Term;
+        let direct = match &self.w.term {
+            Term::Phys => true,
+            Term::Alt(_, inner) => matches!(**inner, Term::Phys),
+            _ => false,
+        };
+        if !direct {
+            return None;
+        }
+        let mut d = self.w.tmp.get(0)?.join("root");
+        if let Some(u) = &self.w.under {
+            for c in &u.prefix {
+                d = d.join(self.cx.names.conc_name(c));
+            }
+        }
+        Some(d)
+    }
+    /// what std::fs finds below the backing directory (C07: everything a PhysicalFS creates lies inside its
+    /// root directory - and is really there)
+    pub fn disk_json(&self) -> Option<Value> {
+        let top = self.backing_dir()?;
+        let mut out = vec![];
+        let mut stack = vec![(top, Vec::<String>::new())];
+        while let Some((d, pre)) = stack.pop() {
+            let rd = match std::fs::read_dir(&d) {
+                Ok(r) => r,
+                Err(_) => continue,
+            };
+            for ent in rd.flatten() {
+                let name = ent.file_name().to_string_lossy().to_string();
+                let mut p = pre.clone();
+                p.push(self.cx.names.abs_name(&name));
+                let md = match std::fs::symlink_metadata(ent.path()) {
+                    Ok(m) => m,
+                    Err(_) => continue,
+                };
+                if md.is_dir() {
+                    out.push(json!({"p":p,"k":"dir","d":[]}));
+                    stack.push((ent.path(), p));
+                } else {
+                    let bytes = std::fs::read(ent.path()).unwrap_or_default();
+                    out.push(json!({"p":p,"k":"file","d":crate::names::abs_bytes(&bytes, self.cx.b)}));
+                }
+            }
+        }
+        out.sort_by(|a, b| a["p"].to_string().cmp(&b["p"].to_string()));
+        Some(Value::Array(out))
+    }
+
     /// the paths that carry a whiteout marker in the write layer (decoded with the name table; Level-B binding)
     fn markers_json(&self) -> Value {
         let mut out: Vec<Vec<String>> = vec![];
@@ -171,6 +222,9 @@ impl Session {
         if let Some(o) = self.other.as_mut() {
             let oe = o.init_event();
             e["other"] = json!({"cfg":oe["cfg"],"obs":oe["obs"]});
+        }
+        if let (Some(d), false) = (self.disk_json(), self.light) {
+            e["disk"] = d;
         }
         e
     }
@@ -281,6 +335,11 @@ impl Session {
             o.rot = self.rot - 1; // same tick rotation
             let oe = o.step(op);
             e["other"] = json!({"res":oe["res"],"obs":oe["obs"]});
+        }
+        if full {
+            if let Some(d) = self.disk_json() {
+                e["disk"] = d;
+            }
         }
         e
     }
